@@ -34,6 +34,7 @@ type MassDBV1 struct {
 	pubKeyHash pocutil.Hash
 	plotting   int32 // atomic
 	stopPlotCh chan struct{}
+	stopOnce   *sync.Once // guards close(stopPlotCh) of the current plot run
 	wg         sync.WaitGroup
 }
 
@@ -69,6 +70,7 @@ func (mdb *MassDBV1) Plot() chan error {
 	}
 
 	mdb.stopPlotCh = make(chan struct{})
+	mdb.stopOnce = new(sync.Once)
 	mdb.wg.Add(1)
 	go mdb.executePlot(result)
 
@@ -84,8 +86,11 @@ func (mdb *MassDBV1) StopPlot() chan error {
 		return result
 	}
 
+	stopPlotCh, stopOnce := mdb.stopPlotCh, mdb.stopOnce
 	go func() {
-		close(mdb.stopPlotCh)
+		if stopOnce != nil {
+			stopOnce.Do(func() { close(stopPlotCh) })
+		}
 		mdb.wg.Wait()
 		result <- nil
 	}()
